@@ -457,10 +457,11 @@ static std::string skel_class(const Ast &a, const Menu &m, int i)
     return std::string(bn[n.op]) + "(" + skel_class(a, m, n.a) + "," + skel_class(a, m, n.b) + ")";
 }
 
-enum { K_STRINGS, K_AST_CHECKED, K_SKIP_HUGE, K_BOTH_THROW, K_LEADZERO_CASES, K_NAN_SAMEKEY, K_FUNC_STRINGS };
+enum { K_STRINGS, K_AST_CHECKED, K_SKIP_HUGE, K_BOTH_THROW, K_LEADZERO_CASES, K_NAN_SAMEKEY, K_FUNC_STRINGS, K_LZ_STRINGS, K_MISMATCH_STRINGS };
 static std::vector<std::string> CN = {"strings_parsed_and_compared", "asts_checked", "asts_skipped_huge_exact_power(guard)",
                                       "asts_where_direct_construction_and_parse_both_throw", "asts_with_leading_zero_literal",
-                                      "results_same_key_but_eq_false(nan)", "function_call_strings_parsed"};
+                                      "results_same_key_but_eq_false(nan)", "function_call_strings_parsed",
+                                      "strings_violating:leading-zero-literal", "strings_violating:other-mismatch"};
 
 static bool has_nan_double(const Basic &e)
 {
@@ -474,6 +475,14 @@ static bool has_nan_double(const Basic &e)
         if (has_nan_double(*a))
             return true;
     return false;
+}
+// Emit at most 2 violation records per signature per worker process (workers take interleaved slices, so the
+// globally lowest index of every signature is always among them); the rest is counted.  Keeps a defect that
+// affects millions of strings from turning into millions of report lines.
+static bool first_of_class(const std::string &sig)
+{
+    static std::map<std::string, int> seen;
+    return seen[sig]++ < 2;
 }
 struct Res {
     bool threw = false;
@@ -569,14 +578,18 @@ static void run_space(Space &sp)
                     }
                     bool explained = (alt.threw && got.threw && alt.exc == got.exc) || (!alt.threw && !got.threw && alt.k == got.k);
                     if (explained) {
-                        c.violation("leading-zero-literal",
+                        c.count(K_LZ_STRINGS);
+                        if (first_of_class("leading-zero-literal"))
+                            c.violation("leading-zero-literal",
                                     "parse(" + jstr(s) + ") = " + gots + "; conventional (base-10) reading: " + wants
                                         + " -- the rest of the string is parsed as expected (result equals the direct construction with the "
                                           "zero-prefixed integer literal read as octal / float)");
                         continue;
                     }
                 }
-                c.violation("mismatch:" + skel_class(a, m, a.root) + (paren ? ":allparen" : ""),
+                c.count(K_MISMATCH_STRINGS);
+                if (first_of_class("mismatch:" + skel_class(a, m, a.root) + (paren ? ":allparen" : "")))
+                    c.violation("mismatch:" + skel_class(a, m, a.root) + (paren ? ":allparen" : ""),
                             "parse(" + jstr(s) + ") = " + gots + "; direct construction from the AST gives " + wants);
             }
         }
@@ -693,19 +706,23 @@ int main(int argc, char **argv)
         sp.build(minl, maxl, maxu);
         spaces.push_back(sp);
     };
+    std::vector<std::string> nine = {"x", "y", "2", "10", "08", ".5", "1E-1", "2x", "3.5y"};
     if (!thorough) {
-        mk_space("A:leaves<=3,prefix<=1,15leaves", base, 1, 3, 1);
+        mk_space("A:leaves<=3,prefix=0,15leaves", base, 1, 3, 0);
+        mk_space("B:leaves<=3,prefix<=1,9leaves", nine, 1, 3, 1);
     } else {
         std::vector<std::string> big = base;
         big.push_back("100000000000000000000");
         big.push_back("0100000000000000000000");
         big.push_back("1.5e+3");
         big.push_back("_a1");
-        mk_space("A:leaves<=3,prefix<=1,19leaves", big, 1, 3, 1);
-        mk_space("B:leaves<=3,prefix<=2,10leaves", {"x", "y", "2", "10", "08", ".5", "1E-1", "5.", "2x", "3.5y"}, 1, 3, 2);
-        mk_space("C:leaves=4,prefix<=1,6leaves", {"x", "y", "2", "10", ".5", "2x"}, 4, 4, 1);
+        mk_space("A:leaves<=3,prefix=0,19leaves", big, 1, 3, 0);
+        mk_space("A2:leaves<=3,prefix<=1,15leaves", base, 1, 3, 1);
+        mk_space("C:leaves=4,prefix=0,6leaves", {"x", "y", "2", "10", ".5", "2x"}, 4, 4, 0);
+        mk_space("B:leaves<=3,prefix<=2,6leaves", {"x", "2", "08", ".5", "2x", "3.5y"}, 1, 3, 2);
+        mk_space("D:leaves=4,prefix<=1,3leaves", {"x", "2", "2x"}, 4, 4, 1);
     }
-    // space B repeats the prefix<=1 cases of A on its smaller menu; harmless (they are cheap)
+    // the spaces overlap on their common sub-menus; harmless (the overlap is small)
 
     // ---------------- function and constant names (first: small and fast)
     {
